@@ -1,11 +1,12 @@
 #!/usr/bin/env python3
 """Regenerates MANIFEST.json from checklib.PROPS and manifest_text.py (claims per property)."""
-import json, subprocess, sys
-sys.path.insert(0, '/verif')
+import json, os, subprocess, sys
+HERE = os.path.dirname(os.path.abspath(__file__))
+sys.path.insert(0, HERE)
 from checklib import PROPS
 from manifest_text import CLAIMS, NOT_APPLICABLE_REASON, NOTES
 
-props = [json.loads(l)['id'] for l in open('/verif/properties.jsonl')]
+props = [json.loads(l)['id'] for l in open(os.path.join(HERE, 'properties.jsonl'))]
 hook_commits = subprocess.run(['git', '-C', '/repo', 'log', '--format=%h', '--', 'verif_hooks.go'],
                               capture_output=True, text=True).stdout.split()
 m = {
@@ -44,5 +45,5 @@ for p in props:
         })
     else:
         m["not_applicable"].append({"property_id": p, "reason": NOT_APPLICABLE_REASON.get(p, "check not built yet (work in progress; DESIGN.md section 10 staging)")})
-json.dump(m, open('/verif/MANIFEST.json', 'w'), indent=1)
+json.dump(m, open(os.path.join(HERE, 'MANIFEST.json'), 'w'), indent=1)
 print("checks:", [c["property_id"] for c in m["checks"]])
